@@ -261,6 +261,9 @@ impl Primitive {
         } else {
             10
         };
+        // Only integers can be hexadecimal; a floating-point literal is parsed as written, so
+        // that `0x10` is rejected instead of being read as the decimal 10.
+        let literal = value;
         let value = &value.replace("0x", "");
         match r#type {
             "uint8" => {
@@ -296,13 +299,13 @@ impl Primitive {
                 Ok(Self::Int64)
             }
             "float32" => {
-                if value.parse::<f32>()?.is_infinite() {
+                if literal.parse::<f32>()?.is_infinite() {
                     return Err(Error::FloatIsInfinite);
                 }
                 Ok(Self::Float32)
             }
             "float64" => {
-                if value.parse::<f64>()?.is_infinite() {
+                if literal.parse::<f64>()?.is_infinite() {
                     return Err(Error::FloatIsInfinite);
                 }
                 Ok(Self::Float64)
